@@ -33,13 +33,13 @@ prop("C10", funcs=True,
      rule="well-formed generated documents (duplicate-free, plus a stream that repeats member names: every variant answers with the first occurrence) (depth<=4, strings with escapes/multibyte/structural bytes, leading pad 0..69 to move the 64-byte blocks) x up to 6 valid paths + perturbed paths x 15 lookup variants (checked/unchecked x 5 carriers, LazyValue/OwnedLazyValue/Value pointer, Value::get chain); plus block-edge documents with quotes/backslashes/brackets inside strings; non-trivial = non-empty path",
      assumptions=["the 64-byte bitmap bookkeeping of skip_container_loop is tied to the scalar counting model by the correspondence (unit hooks + unchecked API), not by proof"])
 prop("C11", unit_ops={"manyrec"},
-     rule="generated documents x 1..6 paths (shared prefixes, repeats, perturbed) filtered for shape consistency x {get_many, get_many_unchecked}; the implementation's slot vector is judged by the extracted reference lookup (verdict op); the same over documents that repeat member names (first occurrence wins, as in get; F37); for path sets of member names the search model itself (Model/ManySeen.rec2 over the tree Model/ManyBuild.build makes of the paths: counter, early exits, list of walked nodes) is run on the reference parse and must return the very slot vector get_many / get_many_unchecked returned, or fail where they fail (op manyrec); (schema, document) pairs against the reference merge",
+     rule="generated documents x 1..6 paths (shared prefixes, repeats, perturbed) filtered for shape consistency x {get_many, get_many_unchecked}; the implementation's slot vector is judged by the extracted reference lookup (verdict op); on documents that repeat member names (outside C11's statement: their API-level verdict is C14's) and on all others, for path sets of member names the search model itself (Model/ManySeen.rec2 over the tree Model/ManyBuild.build makes of the paths: counter, early exits, list of walked nodes) is run on the reference parse and must return the very slot vector get_many / get_many_unchecked returned, or fail where they fail (op manyrec); (schema, document) pairs against the reference merge",
      assumptions=["hash-map iteration order of owned objects is irrelevant (results compared after sorting keys)"])
 prop("C12",
      rule="generated documents (arrays/objects of width 0..6, nested, escaped keys, whitespace), 1/5 with trailing bytes, 1/3 mutated x {to_array_iter, to_object_iter} x {&[u8], &FastStr, &Bytes} + unchecked iterators and LazyValue::into_*_iter on the well-formed ones; each iterator polled 3 times past its end; transcript (spans, decoded keys) compared with the reference iterator",
      assumptions=["invalid UTF-8 anywhere in the input is reported by the first poll (as the implementation does)"])
 prop("C14",
-     rule="generated documents (one in three may repeat member names) mutated once (9 mutation kinds) x up to 5 paths x 6 checked get carriers, every prefix of small documents, get_many on the malformed stream, checked iterators; each returned span compared with the reference get on arbitrary bytes (Spec.Ref.ref_get = decision procedure of WfPrefix)",
+     rule="generated documents (one in three may repeat member names) mutated once (9 mutation kinds) x up to 5 paths x 6 checked get carriers, every prefix of small documents, get_many on the malformed stream, get_many on well-formed documents that repeat member names (every filled slot is exactly one well-formed value inside the input, no panic: op manyfrag; F37), checked iterators; each returned span compared with the reference get on arbitrary bytes (Spec.Ref.ref_get = decision procedure of WfPrefix)",
      assumptions=[])
 
 prop("C09",
